@@ -236,31 +236,51 @@ def instructions(circ):
 
 
 def binding_of(circ, x):
-    """slot -> parameter (float or parameter name) read off a decomposed circuit of individual x;
-    returns None if the instruction list does not have the shape the genome dictates"""
+    """slot -> parameter (float or parameter name) read off a decomposed circuit of individual x.
+    `decompose()` orders instructions topologically, so only the order on each qubit wire is meaningful: the k-th
+    instruction on wire q belongs to layer k.  Returns None if the circuit does not have the shape the genome dictates."""
     ins = instructions(circ)
-    pos = 0
+    wires = {q: [] for q in range(x.n_qubits)}
+    for idx, (_, qs, _) in enumerate(ins):
+        for q in qs:
+            if q not in wires:
+                return None
+            wires[q].append(idx)
+    ptr = {q: 0 for q in wires}
+    used = 0
     b = {}
+
+    def nxt(q):
+        if ptr[q] >= len(wires[q]):
+            return None
+        return wires[q][ptr[q]]
+
     for li, l in enumerate(x.layers):
         for g in l.gates:
             if isinstance(g, ControlGate):
                 continue
-            if pos >= len(ins):
+            k = nxt(g.qubit_index)
+            if k is None:
                 return None
-            name, qs, ps = ins[pos]
-            pos += 1
+            name, qs, ps = ins[k]
             if isinstance(g, IdentityGate):
                 if name != "id" or qs != [g.qubit_index]:
                     return None
+                ptr[g.qubit_index] += 1
             elif isinstance(g, RotationGate):
                 if name != "u" or qs != [g.qubit_index] or len(ps) != 3:
                     return None
+                ptr[g.qubit_index] += 1
                 b[(li, g.qubit_index, "theta")], b[(li, g.qubit_index, "phi")], b[(li, g.qubit_index, "lambda")] = ps
             else:
-                if name != "cu3" or qs != [g.control_qubit_index, g.qubit_index] or len(ps) != 3:
+                c = g.control_qubit_index
+                if name != "cu3" or qs != [c, g.qubit_index] or len(ps) != 3 or nxt(c) != k:
                     return None
+                ptr[g.qubit_index] += 1
+                ptr[c] += 1
                 b[(li, g.qubit_index, "theta")], b[(li, g.qubit_index, "phi")], b[(li, g.qubit_index, "lambda")] = ps
-    if pos != len(ins):
+            used += 1
+    if used != len(ins):
         return None
     return b
 
